@@ -5,6 +5,13 @@ import json, os
 V = os.path.dirname(os.path.dirname(os.path.abspath(__file__)))
 TB = "pyvc (symbolic executor, numpy shim, mirror loader) and z3/cvc5 are trusted; float64 treated as exact reals; external libraries (numpy kernels beyond the shim's definitional semantics, scipy, qhull, rtree, networkx, shapely) are assumed contracts"
 CLAIMED = {
+    "C02": dict(
+        category="proof",
+        text="Inductive invariant `not dirty => stored hash = H(bytes)` over an abstract machine whose transitions are numpy mutation routes (35 routes x 5 alias configurations) and whose hook bodies are the contracts of the real TrackedArray methods, themselves discharged on every run by executing the verbatim class text on a ghost base (each of the 27 overridden mutators sets the dirty flag before delegating; __array_finalize__ dirties self and a tracked parent; __hash__ recomputes when dirty and caches only when clean). The numpy dispatch table is regenerated from the installed numpy each run and model/real agreement is enforced. 147 (route, alias) obligations fail today and are the four recorded known findings; any other failing obligation is a violation replayed on the real class.",
+        design_ref="DESIGN.md §4 C02",
+        note="assumed: numpy's hook dispatch as observed on the installed version; hash collision freedom (T5); routes outside the table are not covered. Container hashes (DataStore, Trimesh, Path, Scene, ColorVisuals) are a bounded check.",
+        technique="contract-based verification of a representation invariant: method contracts discharged by ghost execution of the extracted class text, invariant preservation per operation class, replay on the real class",
+    ),
     "C04": dict(
         category="proof",
         text="transformations.transform_points is proved equal to M.p+t for every point count N (symbolic length) and every real matrix in 2-D and 3-D, with and without translation, including the identity shortcut and its 1e-8 slack; the inverse and composition laws are lemmas over that contract. flips_winding <=> det<0 for every random draw is in the thorough tier (hint lemmas: adjugate certificates). The behaviour of the real classes (Trimesh, PointCloud, Path2D/3D, Scene, VoxelGrid, primitives) under a fixed family of matrices (rigid, scale, mirror, non-uniform, shear, near-identity) is a bounded stand-in: vertices, winding flip iff det<0, attributes, |det| volume, centre of mass, s^2 area, s^5 R I R^T inertia, inverse, composition.",
